@@ -247,7 +247,7 @@ Proof.
   induction ts as [|t ts IH]; [destruct Hg|]. intros tv acc. cbn [terms_as_vars].
   destruct (gterm_to_var t) as [u|] eqn:Eu; [|discriminate]. intros H. destruct Hg as [->|Hg].
   - rewrite Ev in Eu. injection Eu as <-.
-    assert (K : forall ts acc tv, terms_as_vars ts acc = Some tv -> forall z, In z acc -> In z tv).
+    assert (K : forall ts acc tv, terms_as_vars ts acc = inl tv -> forall z, In z acc -> In z tv).
     { clear. induction ts as [|t ts IH]; intros acc tv; cbn [terms_as_vars]; [intros [= <-]; auto|].
       destruct (gterm_to_var t); [|discriminate]. intros H z Hz. apply (IH _ _ H). apply (in_iset_insert var_dec). auto. }
     apply (K _ _ _ H). apply (in_iset_insert var_dec). auto.
@@ -339,7 +339,7 @@ Proof.
   induction fs as [|a0 fs IH]; intros acc ws uga w1; cbn [user_guide_assumptions].
   - intros [= <- _] a Ha. auto.
   - destruct (is_assumption a0) eqn:Ea.
-    + destruct (forallb _ (predicates (an_formula a0))); [|discriminate].
+    + destruct (is_nil (output_overlap outputs a0)); [|discriminate].
       intros H a Ha. destruct (IH _ _ _ _ H a Ha) as [Hacc|[b [Hb [Hb1 Hb2]]]].
       * apply in_app_iff in Hacc. destruct Hacc as [Hacc|[<-|[]]]; [auto|].
         right. exists a0. split; [left; reflexivity|auto].
